@@ -1285,8 +1285,9 @@ class Traph(object):
             node, page_report = self.__add_page(lru, crawled=crawled)
             report += page_report
 
-            node.flag_as_crawled()
-            node.write()
+            if crawled:
+                node.flag_as_crawled()
+                node.write()
 
         return report
 
